@@ -31,6 +31,11 @@ CHECKS = {
    "Exhaustive over the stated domains (version points W = semver.org precedence example + neighbours, all four range kinds over W). Real register/lookup_route/openapi/request_extract_version compared with RefSemver/RefRange.",
    "trusted: RefSemver/RefRange; crate semver as parser of header values only; build metadata excluded",
    "DESIGN.md section 4/C05"),
+ "C06": ("E1", "model_checking",
+   "stateless exhaustive exploration of registration histories (all permutations of all conflict-free k-subsets of a 32-spec alphabet with 10 schema shapes, tags, visibility, ranges); real openapi().write() parsed and compared at 6 versions",
+   "For every permutation of every conflict-free subset (k<=3 quick, k<=4 thorough): operation set of the document == published specs whose range contains v; unpublished ones still served by lookup_route; every $ref resolves; write twice / rebuild / every permutation give identical bytes.",
+   "trusted: RefRange, serde_json as JSON parser; schema *content* is C07/C08's business",
+   "DESIGN.md section 4/C06"),
 }
 
 NOT_YET = {
@@ -69,7 +74,7 @@ def main():
         "add_only": True,
       },
       "engines": [
-        {"name": "E1", "path": "harness/src/e1.rs + harness/src/bin/e1.rs", "serves_properties": ["C01","C02","C04"], "kind_free_text": "stateless explicit exploration of registration histories on the real ApiDescription/HttpRouter"},
+        {"name": "E1", "path": "harness/src/e1.rs + harness/src/bin/e1.rs", "serves_properties": ["C01","C02","C04","C06"], "kind_free_text": "stateless explicit exploration of registration histories on the real ApiDescription/HttpRouter"},
         {"name": "E2", "path": "harness/src/bin/c03.rs c05.rs ...", "serves_properties": ["C03","C05"], "kind_free_text": "bounded-exhaustive input enumeration against reference functions, on the real public functions"},
       ],
       "checks": checks,
